@@ -12,11 +12,16 @@ Stated with an explicit hypothesis because the current code violates the full st
     (`¬ MarginDefectH/V`, `¬ ReplacedDefectH/V`: an auto margin is solved ignoring the other margin);
   * `float_rules`, `float_no_overlap`, `float_place_invariants`, `all_floats_disjoint_and_ordered`
     (`border_height ≠ 0`: a float with an empty border box is sent to the page origin).
+Document-level model (`Model/FloatFlow.lean`): `cleared_top_spec` (clearance is added to the collapsed
+position), `inline_waiting_is_suffix`, `inline_placed_is_prefix` (a float met in a line after a deferred
+float is deferred too).  The snap of on-line floats to the line top is modelled as it is (known finding
+inline-float-snapped-to-line-top).
 Boundary behaviour, not a finding: `as_high_as_possible`, `no_overlap`, `result_fits_or_is_free` are about
 shapes and boxes of positive height (`collide_zero_height_*` state what happens otherwise).
 -/
 import WpModel.Lemmas.FloatPlace
 import WpModel.Model.Absolute
+import WpModel.Model.FloatFlow
 
 namespace Wp.C11
 open Wp Wp.Floats
@@ -1210,5 +1215,96 @@ end
 example : relativeOffset true (.px 5) (.pct 10) .auto (.px 3) 200 100 = (-20, -3) := by decide +kernel
 
 end Relative
+
+/-! ## Clearance of in-flow blocks and floats met inside a line (`Model/FloatFlow.lean`) -/
+
+/-- **`clear` moves the top border edge below the named floats, from the collapsed position.**
+`block_level_layout` computes `top_border_edge = position_y + collapsed_margin + clearance`: whatever the
+margin `cm` the box's top margin collapses to with the adjoining margins of its previous siblings, the
+resulting top border edge is at or below the bottom of every float named by `clear`, never above the
+un-cleared position `y + cm`, and equal to one of the two (the un-cleared position, or the bottom of the
+lowest named float): clearance is added to the *collapsed* position, not to the box's own margin. -/
+theorem cleared_top_spec (shapes : List Shape) (c : Clear) (y cm : Rat) :
+    let top := (clearedTop shapes c y cm).1
+    (∀ s ∈ shapes, Named c s → s.bottom ≤ top) ∧ y + cm ≤ top ∧
+    (top = y + cm ∨ ∃ s ∈ shapes, Named c s ∧ s.bottom = top) ∧
+    ((clearedTop shapes c y cm).2 = true → y + cm < top) := by
+  simp only [clearedTop]
+  cases h : getClearance shapes c y cm with
+  | none =>
+    have := (clearance_none_iff shapes c y cm).mp h
+    exact ⟨this, Rat.le_refl, Or.inl rfl, by simp⟩
+  | some a =>
+    obtain ⟨hpos, h1, h2⟩ := clearance_least shapes c y cm a h
+    refine ⟨h1, by simp; grind, Or.inr h2, by intro _; simp; grind⟩
+
+example : (clearedTop [⟨0, 0, 50, 54, .left⟩] .left 10 30).1 = 54 ∧
+    (clearedTop [⟨0, 0, 50, 54, .left⟩] .left 10 45).1 = 55 := by decide +kernel
+
+/-- **Once a float of a line waits, every later float of that line waits** (`_out_of_flow_layout`:
+`if float_width > max_x - position_x or waiting_floats`): after a deferred float no float is laid
+out on the line itself. -/
+theorem inline_waiting_is_suffix (cb : CB) (lineY : Rat) (shapes : List Shape) (rem : Rat) (bs : List ABox)
+    (shapes' : List Shape) (out : List (ABox × Option (Rat × Rat × Rat × Rat)))
+    (h : inlinePass1 cb lineY shapes rem true bs = .ok (shapes', out)) :
+    shapes' = shapes ∧ ∀ e ∈ out, e.2 = none := by
+  induction bs generalizing out shapes' with
+  | nil => simp [inlinePass1] at h; exact ⟨h.1.symm, by rw [h.2]; simp⟩
+  | cons b rest ih =>
+    simp only [inlinePass1, Bool.or_true, if_true] at h
+    split at h
+    · simp at h
+    · rename_i sh o hrec
+      simp only [Except.ok.injEq, Prod.mk.injEq] at h
+      obtain ⟨i1, i2⟩ := ih sh o hrec
+      refine ⟨by rw [← h.1]; exact i1, ?_⟩
+      rw [← h.2]
+      intro e he
+      rcases List.mem_cons.mp he with he | he
+      · rw [he]
+      · exact i2 e he
+
+/-- **A float met in a line is never placed above an earlier float of the same line**: the floats laid
+out on the line form a prefix of the line's floats (each at the line's top), everything after the
+first deferred float is deferred (and is then laid out from the line's bottom). -/
+theorem inline_placed_is_prefix (cb : CB) (lineY : Rat) (shapes : List Shape) (rem : Rat) (bs : List ABox)
+    (shapes' : List Shape) (out : List (ABox × Option (Rat × Rat × Rat × Rat)))
+    (h : inlinePass1 cb lineY shapes rem false bs = .ok (shapes', out)) :
+    ∃ n, (∀ e ∈ out.take n, e.2.isSome = true) ∧ (∀ e ∈ out.drop n, e.2 = none) := by
+  induction bs generalizing shapes shapes' rem out with
+  | nil => simp [inlinePass1] at h; exact ⟨0, by simp, by rw [h.2]; simp⟩
+  | cons b rest ih =>
+    simp only [inlinePass1, Bool.or_false] at h
+    split at h
+    · -- this float waits: everything after it waits
+      split at h
+      · simp at h
+      · rename_i sh o hrec
+        simp only [Except.ok.injEq, Prod.mk.injEq] at h
+        obtain ⟨_, i2⟩ := inline_waiting_is_suffix cb lineY shapes rem rest sh o hrec
+        refine ⟨0, by simp, ?_⟩
+        rw [← h.2]
+        intro e he
+        simp at he
+        rcases he with he | he
+        · rw [he]
+        · exact i2 e he
+    · split at h
+      · simp at h
+      · rename_i b' sh1 hpl
+        split at h
+        · simp at h
+        · rename_i sh o hrec
+          simp only [Except.ok.injEq, Prod.mk.injEq] at h
+          obtain ⟨n, j1, j2⟩ := ih sh1 _ sh o hrec
+          refine ⟨n + 1, ?_, ?_⟩
+          · rw [← h.2]
+            intro e he
+            simp at he
+            rcases he with he | he
+            · rw [he]; rfl
+            · exact j1 e he
+          · rw [← h.2]; simpa using j2
+
 
 end Wp.C11
